@@ -617,18 +617,20 @@ example : (Md.new ⟨.left, 2, arr [2,3], fun _ => 0⟩ 7).get? (arr [1,2]) = so
     ((Md.new ⟨.left, 2, arr [2,3], fun _ => 0⟩ 7).set (arr [1,2]) 9).data = [7,7,7,7,7,9] ∧
     ((Md.new ⟨.right, 2, arr [2,3], fun _ => 0⟩ 7).set (arr [1,0]) 9).data = [7,7,7,9,7,7] := by decide
 
-/-- copies refer to equal elements: an array built from a view (`mdarray(const mdspan&)`: container of `other.size()`
-    elements, `mapping_(other.mapping())`, then the nested loops `container_[mapping_(ii...)] = other[ii...]`) holds
-    at every valid index the element the view has there — for a left/right array and a view of any layout over the same
-    extents that stays inside its storage -/
-theorem mdarray_from_mdspan_elements (m : Mapping) (hm : m.lay ≠ .stride) (other : Md)
+/-- copies refer to equal elements, for ALL accessor choices: an array built from a view (`mdarray(const mdspan&)`:
+    container of `other.size()` elements, `mapping_(other.mapping())`, then the nested loops
+    `container_[mapping_(ii...)] = other[ii...]`) holds at every valid index the element the view yields there, i.e.
+    `accessor.access(data_handle, other.mapping()(ii...))` — for a left/right array and a view of any layout and ANY
+    accessor policy (`other.acc` is an arbitrary function of the offset) over the same extents that stays inside its
+    storage -/
+theorem mdarray_from_view_elements (m : Mapping) (hm : m.lay ≠ .stride) (other : View)
     (hrank : other.map.rank = m.rank) (hext : ∀ k, k < m.rank → other.map.ext k = m.ext k)
     (hother : ∀ J, Valid m.rank m.ext J → ∃ v, other.get? J = some v)
-    (I : Arr) (hI : Valid m.rank m.ext I) : (Md.fromMdspan m other).get? I = other.get? I := by
+    (I : Arr) (hI : Valid m.rank m.ext I) : (Md.fromView m other).get? I = other.get? I := by
   have hinj : InjOn m := fun I J hI hJ h =>
     offset_injective m I J (fun hs => absurd hs hm) hI hJ h
-  unfold Md.fromMdspan
-  rw [initFromMdspan_eq]
+  unfold Md.fromView
+  rw [initFromView_eq]
   apply initFold_spec m hinj other hrank (fun J hJ => offset_in_range m J hJ) I hI (hother I hI)
   · rfl
   · -- the container of other.size() elements is exactly the required span of a left/right mapping
@@ -654,19 +656,32 @@ theorem mdarray_from_mdspan_elements (m : Mapping) (hm : m.lay ≠ .stride) (oth
       rw [toList_getD _ _ _ hk, toList_getD _ _ _ hk]
       exact hI k hk
 
+/-- the special case of a view with `default_accessor` over flat storage -/
+theorem mdarray_from_mdspan_elements (m : Mapping) (hm : m.lay ≠ .stride) (other : Md)
+    (hrank : other.map.rank = m.rank) (hext : ∀ k, k < m.rank → other.map.ext k = m.ext k)
+    (hother : ∀ J, Valid m.rank m.ext J → ∃ v, other.get? J = some v)
+    (I : Arr) (hI : Valid m.rank m.ext I) : (Md.fromMdspan m other).get? I = other.get? I :=
+  mdarray_from_view_elements m hm other.toView hrank hext hother I hI
+
 example : (Md.fromMdspan ⟨.left, 2, arr [2,3], fun _ => 0⟩ ⟨⟨.right, 2, arr [2,3], fun _ => 0⟩, [10,11,12,13,14,15]⟩).data
     = [10,13,11,14,12,15] := by decide
 
-/-- the container of an array built from a view has `other.size()` elements, which is exactly the span its (left/right)
-    mapping requires: every later access at a valid index is inside the container -/
-theorem mdarray_from_mdspan_container (m : Mapping) (hm : m.lay ≠ .stride) (other : Md)
+-- an accessor that views every second entry of interleaved storage, starting at 1 (`access(p,i) = p[2*i+1]`): the array
+-- holds the viewed entries 1,3,5,7,9,11 (in its own layout), not the raw entries `p[i]`
+example : (Md.fromView ⟨.left, 2, arr [2,3], fun _ => 0⟩
+    (AccView.toView ⟨⟨.right, 2, arr [2,3], fun _ => 0⟩, fun i => 2 * i + 1, [0,1,2,3,4,5,6,7,8,9,10,11,12]⟩)).data
+    = [1,7,3,9,5,11] := by decide
+
+/-- the container of an array built from a view (any accessor policy) has `other.size()` elements, which is exactly the
+    span its (left/right) mapping requires: every later access at a valid index is inside the container -/
+theorem mdarray_from_view_container (m : Mapping) (hm : m.lay ≠ .stride) (other : View)
     (hrank : other.map.rank = m.rank) (hext : ∀ k, k < m.rank → other.map.ext k = m.ext k) :
-    (Md.fromMdspan m other).data.length = mdSize other.map.rank other.map.ext ∧
-    (Md.fromMdspan m other).data.length = m.requiredSpan ∧ (Md.fromMdspan m other).map = m ∧
-    ∀ I, Valid m.rank m.ext I → m.offset I < (Md.fromMdspan m other).data.length := by
-  have hlen : (Md.fromMdspan m other).data.length = mdSize other.map.rank other.map.ext := by
-    unfold Md.fromMdspan
-    rw [initFromMdspan_eq, initFold_length, List.length_replicate]
+    (Md.fromView m other).data.length = mdSize other.map.rank other.map.ext ∧
+    (Md.fromView m other).data.length = m.requiredSpan ∧ (Md.fromView m other).map = m ∧
+    ∀ I, Valid m.rank m.ext I → m.offset I < (Md.fromView m other).data.length := by
+  have hlen : (Md.fromView m other).data.length = mdSize other.map.rank other.map.ext := by
+    unfold Md.fromView
+    rw [initFromView_eq, initFold_length, List.length_replicate]
   have hreq : mdSize other.map.rank other.map.ext = m.requiredSpan := by
     rw [mdSize_eq, hrank, prodFrom_congr (fun k _ hk => hext k (by simpa using hk))]
     cases m with | mk lay rank ext str =>
@@ -675,8 +690,15 @@ theorem mdarray_from_mdspan_container (m : Mapping) (hm : m.lay ≠ .stride) (ot
     · show _ = product rank ext; rw [product_eq]
     · exact absurd rfl hm
   refine ⟨hlen, by rw [hlen, hreq], ?_, fun I hI => by rw [hlen, hreq]; exact offset_in_range m I hI⟩
-  unfold Md.fromMdspan
-  rw [initFromMdspan_eq, initFold_map]
+  unfold Md.fromView
+  rw [initFromView_eq, initFold_map]
+
+theorem mdarray_from_mdspan_container (m : Mapping) (hm : m.lay ≠ .stride) (other : Md)
+    (hrank : other.map.rank = m.rank) (hext : ∀ k, k < m.rank → other.map.ext k = m.ext k) :
+    (Md.fromMdspan m other).data.length = mdSize other.map.rank other.map.ext ∧
+    (Md.fromMdspan m other).data.length = m.requiredSpan ∧ (Md.fromMdspan m other).map = m ∧
+    ∀ I, Valid m.rank m.ext I → m.offset I < (Md.fromMdspan m other).data.length :=
+  mdarray_from_view_container m hm other.toView hrank hext
 
 /-- conversions of views refer to equal elements: a view whose mapping was converted by any of the mapping
     constructors (`mdspan(const mdspan<…>&)`: same data handle, `mapping_type(other.mapping())`) reads, at every index
@@ -690,6 +712,176 @@ theorem mdspan_convert_elements (a : Md) (t : Layout) (m' : Mapping) (h : a.map.
     regenerated from their sources) -/
 theorem mdarray_size_consistent (n : Nat) (E : Arr) : mdarraySize n E = mdSize n E ∧ mdarraySize n E = prodFrom E 0 n := by
   rw [mdarraySize_eq, mdSize_eq]; exact ⟨rfl, rfl⟩
+
+/-! ## round three: containers that are larger than the index space, accessor policies, index types -/
+
+/-- `size()` of an owning array counts the index tuples, WHATEVER container it owns: an array built by
+    `mdarray(extents|mapping, container)` from an arbitrary container `c` (e.g. a re-used, larger buffer, or a
+    `std::array<T,N>` with `N` above the product of the extents) reports the number of index tuples = the product of the
+    extents = `to_mdspan().size()`, while `container_size()` is `c.size()`; for left/right mappings that is the required
+    span, and a copy of the array made through its view owns exactly `size()` elements -/
+theorem mdarray_size_any_container (m : Mapping) (c : List Int) :
+    (Md.fromContainer m c).size = (allTuples (toList m.rank m.ext)).length ∧
+    (Md.fromContainer m c).size = prodFrom m.ext 0 m.rank ∧
+    (Md.fromContainer m c).size = mdSize m.rank m.ext ∧
+    (Md.fromContainer m c).containerSize = c.length ∧
+    (m.lay ≠ .stride → (Md.fromContainer m c).size = m.requiredSpan ∧
+      (Md.fromMdspan m (Md.fromContainer m c)).containerSize = (Md.fromContainer m c).size) := by
+  have hs : (Md.fromContainer m c).size = prodFrom m.ext 0 m.rank := mdarraySize_eq m.rank m.ext
+  refine ⟨by rw [hs, allTuples_toList_length], hs, by rw [hs, mdSize_eq], rfl, fun hm => ?_⟩
+  have hreq : m.requiredSpan = prodFrom m.ext 0 m.rank := by
+    cases m with | mk lay rank ext str =>
+    cases lay
+    · exact product_eq rank ext
+    · exact product_eq rank ext
+    · exact absurd rfl hm
+  refine ⟨by rw [hs, hreq], ?_⟩
+  have := (mdarray_from_mdspan_container m hm (Md.fromContainer m c) rfl (fun _ _ => rfl)).1
+  show (Md.fromMdspan m (Md.fromContainer m c)).data.length = _
+  rw [this, hs]
+  exact mdSize_eq m.rank m.ext
+
+-- a 2 x 3 array over a buffer of 10 elements: size 6, container size 10; a 0 x 3 array over 4 elements is empty
+example : (Md.fromContainer ⟨.right, 2, arr [2,3], fun _ => 0⟩ [1,2,3,4,5,6,7,8,9,10]).size = 6 ∧
+    (Md.fromContainer ⟨.right, 2, arr [2,3], fun _ => 0⟩ [1,2,3,4,5,6,7,8,9,10]).containerSize = 10 ∧
+    (Md.fromContainer ⟨.left, 2, arr [0,3], fun _ => 0⟩ [1,2,3,4]).size = 0 := by decide
+
+/-- an array over a container that is larger than the required span (every unique mapping): all valid accesses are
+    inside, writes at valid indices are read back and never touch an element at or beyond `required_span_size()` (the
+    surplus of the container stays as it was) -/
+theorem mdarray_oversized_container (a : Md) (I : Arr) (v : Int)
+    (hd : a.map.requiredSpan ≤ a.data.length) (hI : Valid a.map.rank a.map.ext I) :
+    a.map.offset I < a.data.length ∧ (a.set I v).get? I = some v ∧ (a.set I v).size = a.size ∧
+    (a.set I v).containerSize = a.containerSize ∧
+    ∀ j, a.map.requiredSpan ≤ j → (a.set I v).data[j]? = a.data[j]? := by
+  have hr := offset_in_range a.map I hI
+  refine ⟨by omega, ?_, rfl, by simp [Md.set, Md.containerSize], ?_⟩
+  · simp only [Md.set, Md.get?]
+    exact getElem?_set_self' _ _ _ (by omega)
+  · intro j hj
+    simp only [Md.set]
+    exact getElem?_set_ne' _ _ _ _ (by omega)
+
+example : ((Md.fromContainer ⟨.left, 2, arr [2,2], fun _ => 0⟩ [1,2,3,4,5,6]).set (arr [1,1]) 9).data = [1,2,3,9,5,6] := by decide
+
+/-- `std::array<T,N>` as container (`ContainerConstructionTraits<std::array<T,N>>::construct` asserts `size <= N`):
+    the array owns all `N` elements, each valid index reads the initial value, and `size()` is still the product of
+    the extents -/
+theorem mdarray_std_array_container (m : Mapping) (N : Nat) (v : Int) (a : Md) (h : Md.newArray m N v = some a) :
+    m.requiredSpan ≤ N ∧ a.containerSize = N ∧ a.size = prodFrom m.ext 0 m.rank ∧
+    ∀ I, Valid m.rank m.ext I → a.get? I = some v := by
+  unfold Md.newArray at h
+  split at h
+  · rename_i hN
+    cases h
+    refine ⟨hN, by simp [Md.containerSize], mdarraySize_eq m.rank m.ext, ?_⟩
+    intro I hI
+    have hr := offset_in_range m I hI
+    simp only [Md.get?]
+    rw [List.getElem?_replicate]
+    simp; omega
+  · cases h
+
+example : (Md.newArray ⟨.right, 2, arr [2,3], fun _ => 0⟩ 8 7).map (fun a => (a.size, a.containerSize)) = some (6, 8) ∧
+    (Md.newArray ⟨.right, 2, arr [2,3], fun _ => 0⟩ 5 7).isNone = true := by decide
+
+/-- views with an accessor policy `access(p, i) = p[pos i]` (any `pos` that is injective on `[0, required_span_size)`
+    and stays inside the storage there — `default_accessor` is `pos = id`): a write at `I` is read back at `I`, leaves the
+    element of every other valid index untouched and keeps the storage size — for EVERY unique mapping -/
+theorem accview_write_read_unique (a : AccView) (I J : Arr) (v : Int) (hu : InjOn a.map)
+    (hpos : ∀ i j, i < a.map.requiredSpan → j < a.map.requiredSpan → a.pos i = a.pos j → i = j)
+    (hd : ∀ i, i < a.map.requiredSpan → a.pos i < a.data.length)
+    (hI : Valid a.map.rank a.map.ext I) (hJ : Valid a.map.rank a.map.ext J) :
+    (a.set I v).get? I = some v ∧ ((∃ k, k < a.map.rank ∧ I k ≠ J k) → (a.set I v).get? J = a.get? J) ∧
+    (a.set I v).data.length = a.data.length ∧ (a.set I v).toView.get? I = some v := by
+  have hrI := offset_in_range a.map I hI
+  have hrJ := offset_in_range a.map J hJ
+  have h1 : (a.set I v).get? I = some v := by
+    simp only [AccView.set, AccView.get?]
+    exact getElem?_set_self' _ _ _ (hd _ hrI)
+  refine ⟨h1, ?_, by simp [AccView.set], h1⟩
+  rintro ⟨k, hk, hne⟩
+  simp only [AccView.set, AccView.get?]
+  apply getElem?_set_ne'
+  intro heq
+  exact hne (hu I J hI hJ (hpos _ _ hrI hrJ heq) k hk)
+
+-- the interleaved accessor `pos i = 2 i + 1` over 13 entries, 2 x 3 row-major: writing (1,0) changes entry 7 only
+example : ((AccView.mk ⟨.right, 2, arr [2,3], fun _ => 0⟩ (fun i => 2 * i + 1) [0,1,2,3,4,5,6,7,8,9,10,11,12]).set (arr [1,0]) 99).data
+    = [0,1,2,3,4,5,6,99,8,9,10,11,12] := by decide
+
+/-- all index types: for a non-empty index space `stride(i)·extent(i)` of a left mapping is at most
+    `required_span_size()`, and every intermediate value of the accumulator of the `stride(i)` loop (assembled from the
+    regenerated pieces) is at most `stride(i)` — so whenever `required_span_size()` is representable in `index_type`, the
+    stride computation must be carried out in `index_type` and then cannot overflow -/
+theorem stride_left_no_overflow (n : Nat) (E : Arr) (i : Nat) (hi : i < n) (hpos : ∀ k, k < n → 0 < E k)
+    (t : Nat) (ht : t ≤ i) :
+    loopFrom (Gen.left_stride_step n E i) t (Gen.left_stride_lo n E i) (Gen.left_stride_init n E i) ≤ strideLeft n E i ∧
+    strideLeft n E i * E i ≤ product n E := by
+  constructor
+  · show loopFrom (fun r acc => acc * E r) t 0 1 ≤ _
+    rw [loop_prod, Nat.one_mul, strideLeft_eq]
+    have e : i = t + (i - t) := by omega
+    rw [e]
+    exact prodFrom_le_add 0 t (i - t) (fun k _ hk => hpos k (by omega))
+  · rw [strideLeft_eq, product_eq, prodFrom_split E n i hi]
+    exact Nat.le_mul_of_pos_right _ (prodFrom_pos (fun k _ hk => hpos k (by omega)))
+
+theorem stride_right_no_overflow (n : Nat) (E : Arr) (i : Nat) (hi : i < n) (hpos : ∀ k, k < n → 0 < E k)
+    (t : Nat) (ht : t ≤ n - (i + 1)) :
+    loopFrom (Gen.right_stride_step n E i) t (Gen.right_stride_lo n E i) (Gen.right_stride_init n E i) ≤ strideRight n E i ∧
+    strideRight n E i * E i ≤ product n E := by
+  constructor
+  · show loopFrom (fun r acc => acc * E r) t (i + 1) 1 ≤ _
+    rw [loop_prod, Nat.one_mul, strideRight_eq]
+    have e : n - (i + 1) = t + (n - (i + 1) - t) := by omega
+    rw [e]
+    exact prodFrom_le_add (i + 1) t (n - (i + 1) - t) (fun k _ hk => hpos k (by omega))
+  · rw [strideRight_eq, product_eq, prodFrom_split E n i hi]
+    have hp : 0 < prodFrom E 0 i := prodFrom_pos (fun k _ hk => hpos k (by omega))
+    calc prodFrom E (i + 1) (n - (i + 1)) * E i
+        = 1 * (E i * prodFrom E (i + 1) (n - (i + 1))) := by rw [Nat.one_mul, Nat.mul_comm]
+      _ ≤ prodFrom E 0 i * (E i * prodFrom E (i + 1) (n - (i + 1))) := Nat.mul_le_mul_right _ hp
+      _ = prodFrom E 0 i * E i * prodFrom E (i + 1) (n - (i + 1)) := by rw [Nat.mul_assoc]
+
+/-- likewise the loops of `extents::product()` (= `required_span_size()` of left/right), `mdspan::size()` and
+    `mdarray::size()`: every partial product is at most the final value when no extent is 0 -/
+theorem size_loops_no_overflow (n : Nat) (E : Arr) (hpos : ∀ k, k < n → 0 < E k) (t : Nat) (ht : t ≤ n) :
+    loopFrom (Gen.product_step n E) t (Gen.product_lo n E) (Gen.product_init n E) ≤ product n E ∧
+    loopFrom (Gen.mdspan_size_step n E) t (Gen.mdspan_size_lo n E) (Gen.mdspan_size_init n E) ≤ mdSize n E ∧
+    loopFrom (Gen.mdarray_size_step n E) t (Gen.mdarray_size_lo n E) (Gen.mdarray_size_init n E) ≤ mdarraySize n E := by
+  have key : loopFrom (fun r acc => acc * E r) t 0 1 ≤ prodFrom E 0 n := by
+    rw [loop_prod, Nat.one_mul]
+    have e : n = t + (n - t) := by omega
+    rw [e]
+    exact prodFrom_le_add 0 t (n - t) (fun k _ hk => hpos k (by omega))
+  refine ⟨?_, ?_, ?_⟩
+  · rw [product_eq]; exact key
+  · rw [mdSize_eq]; exact key
+  · rw [mdarraySize_eq]; exact key
+
+/-- … and the summation loop of `layout_stride::mapping::required_span_size()`: every partial sum is at most the result -/
+theorem span_stride_no_overflow (n : Nat) (E S : Arr) (hpos : ∀ k, k < n → 0 < E k) (t : Nat) (ht : t ≤ n) :
+    loopFrom (Gen.stride_size_step n E S) t (Gen.stride_size_lo n E S) (Gen.stride_size_init n E S) ≤
+      requiredSpanStride n E S := by
+  rw [requiredSpanStride_pos_ext S hpos]
+  show loopFrom (fun r acc => acc + (E r - 1) * S r) t 0 1 ≤ _
+  rw [loop_sum]
+  have : sumTo t (fun k => (E (0 + k) - 1) * S (0 + k)) ≤ sumTo n (fun k => (E k - 1) * S k) := by
+    have e : n = t + (n - t) := by omega
+    rw [e]
+    clear e ht hpos
+    generalize n - t = d
+    induction d with
+    | zero => exact Nat.le_of_eq (sumTo_congr (fun k _ => by rw [Nat.zero_add]))
+    | succ d ih => rw [← Nat.add_assoc]; simp only [sumTo]; omega
+  omega
+
+-- 2 x 1 x 3000000000 (the span 6000000000 needs a 64-bit index type): stride(0) = stride(1) = 3000000000 ≥ 2^31
+example : strideRight 3 (arr [2,1,3000000000]) 0 = 3000000000 ∧ strideRight 3 (arr [2,1,3000000000]) 1 = 3000000000 ∧
+    product 3 (arr [2,1,3000000000]) = 6000000000 ∧
+    offsetRight 3 (arr [2,1,3000000000]) (arr [1,0,2999999999]) = 5999999999 ∧
+    (Mapping.toStride ⟨.right, 3, arr [2,1,3000000000], fun _ => 0⟩).offset (arr [1,0,2999999999]) = 5999999999 := by decide
 
 /-! ## span sub-views -/
 
